@@ -184,7 +184,20 @@ Section Sim.
   Variable pers : bool.
   Variable P : prov.
   Variable R : St P -> store -> Prop.
-  Hypothesis HP : sim wf1_op pers P R.
+  (* [G]: guard on the operations of the formatted store; [G']: guard of the store below; [gbu]/[gb']: what the guards
+     say about one operation of a batch above / below.  Every operation handed down satisfies G'. *)
+  Variables G G' : op -> bool.
+  Variables gbu gb' : bop -> bool.
+  Hypothesis HGk : forall o, G o = true -> wfk_op o = true.
+  Hypothesis HGkq : forall k, G' (Query [kcrit F k]) = true.
+  Hypothesis HGput : forall f k v t, G (Put k v t) = true -> G' (Put f (fv F v) (rfmt_tags F k t)) = true.
+  Hypothesis HGq : forall c, G (Query [c]) = true -> G' (Query [fcrit F c]) = true.
+  Hypothesis HGs : forall o, match o with Delete _ | Flush | Reopen | Batch [] => G' o = true | _ => True end.
+  Hypothesis HGb : forall eo, forallb gb' eo = true -> G' (Batch eo) = true.
+  Hypothesis HGbu : forall b, G (Batch b) = true -> forallb gbu b = true.
+  Hypothesis Hgdel : forall f, gb' (f, 0, []) = true.
+  Hypothesis Hgput : forall f k v t, gbu (k, v, t) = true -> gb' (f, fv F v, rfmt_tags F k t) = true.
+  Hypothesis HP : sim G' pers P R.
 
   Definition rand_rel (s : St (formatted_rand true F P)) (a : store) : Prop :=
     exists l, R (fst s) (U F l) /\ a = A l /\ J l (snd s).
@@ -203,7 +216,7 @@ Section Sim.
     R (fst (rfind F P m k)) (U F l) /\
     snd (rfind F P m k) = match jfind l k with None => FNone | Some y => FOne (jf y) (snd (uimg F y)) end.
   Proof. intros HR HJ. unfold rfind.
-    pose proof (HP m (U F l) (Query [kcrit F k]) eq_refl HR) as [H1 H2].
+    pose proof (HP m (U F l) (Query [kcrit F k]) (HGkq k) HR) as [H1 H2].
     destruct (step P m (Query [kcrit F k])) as [m1 r]. cbn [fst snd spec_step is_nil] in *. subst r. split; [exact H1|].
     rewrite (qeval_kcrit F OK l n k HJ), (filter_find l k (J_k l n HJ)). destruct (jfind l k); reflexivity. Qed.
 
@@ -245,13 +258,14 @@ Section Sim.
   Lemma rbatch_ok l0 n0 b : forall m n res lv,
     R m (U F l0) -> J l0 n0 -> J lv n -> res_inv res lv l0 ->
     forallb wf_bop b = true -> forallb (fun x : bop => user_tags (snd x)) b = true -> has_empty_key (map bop_key b) = false ->
+    forallb gbu b = true ->
     exists m' n' eo lv', rbatch F P m n res b = (m', n', Some eo) /\ R m' (U F l0) /\ J lv' n' /\
       A lv' = apply_batch (A lv) b /\ U F lv' = apply_batch (U F lv) eo /\
-      forallb wf_bop eo = true /\ has_empty_key (map bop_key eo) = false.
+      (forallb wf_bop eo = true /\ forallb gb' eo = true) /\ has_empty_key (map bop_key eo) = false.
   Proof.
-    induction b as [|[[k v] t] rest IH]; intros m n res lv HR HJ0 HJ Hres Hw Hu Hk.
+    induction b as [|[[k v] t] rest IH]; intros m n res lv HR HJ0 HJ Hres Hw Hu Hk Hg.
     - exists m, n, [], lv. cbn [rbatch]. split; [reflexivity|]. split; [exact HR|]. split; [exact HJ|]. repeat split.
-    - cbn in Hw, Hu. apply andb_prop in Hw as [Hw1 Hw2]. apply andb_prop in Hu as [Hu1 Hu2].
+    - cbn in Hw, Hu. apply andb_prop in Hw as [Hw1 Hw2]. apply andb_prop in Hu as [Hu1 Hu2]. cbn [forallb] in Hg. apply andb_prop in Hg as [Hg1 Hg2].
       unfold has_empty_key in Hk. cbn [map existsb] in Hk. apply orb_false_elim in Hk as [Hk1 Hk2].
       (* the formatted key to use *)
       assert (Hdet : exists m1, R m1 (U F l0) /\
@@ -274,16 +288,16 @@ Section Sim.
           rewrite Hfx.
           assert (Hres2 : res_inv ((k, 0) :: res) (jrem lv k) l0).
           { apply (res_inv_cons res lv); [exact Hres|cbn; apply jfind_jrem_same|intros k' Hne; apply jfind_jrem_other; exact Hne]. }
-          destruct (IH m1 n ((k, 0) :: res) (jrem lv k) HR1 HJ0 (J_jrem lv n k HJ) Hres2 Hw2 Hu2 Hk2)
-            as [m' [n' [eo [lv' [E [H1 [H2 [H3 [H4 [H5 H6]]]]]]]]]].
+          destruct (IH m1 n ((k, 0) :: res) (jrem lv k) HR1 HJ0 (J_jrem lv n k HJ) Hres2 Hw2 Hu2 Hk2 Hg2)
+            as [m' [n' [eo [lv' [E [H1 [H2 [H3 [H4 [[H5 H5g] H6]]]]]]]]]].
           rewrite E. exists m', n', ((jf x, 0, []) :: eo), lv'. cbn [option_map]. split; [reflexivity|]. split; [exact H1|]. split; [exact H2|].
           split; [|split; [|split]].
           -- rewrite H3. unfold apply_batch. cbn [fold_left apply_bop]. rewrite Ev, remove_A. reflexivity.
           -- rewrite H4. unfold apply_batch. cbn [fold_left apply_bop N.eqb]. rewrite (remove_U_found F lv n k x HJ Hf). reflexivity.
-          -- cbn. exact H5.
+          -- cbn [forallb]. rewrite H5, H5g, (Hgdel (jf x)). auto.
           -- unfold has_empty_key in *. cbn [map existsb bop_key fst]. rewrite (N.eqb_sym 0 (jf x)), Hfx. exact H6.
         * cbn [N.eqb].
-          destruct (IH m1 n res lv HR1 HJ0 HJ Hres Hw2 Hu2 Hk2) as [m' [n' [eo [lv' [E [H1 [H2 [H3 [H4 [H5 H6]]]]]]]]]].
+          destruct (IH m1 n res lv HR1 HJ0 HJ Hres Hw2 Hu2 Hk2 Hg2) as [m' [n' [eo [lv' [E [H1 [H2 [H3 [H4 [[H5 H5g] H6]]]]]]]]]].
           exists m', n', eo, lv'. split; [exact E|]. split; [exact H1|]. split; [exact H2|]. split; [|auto].
           rewrite H3. unfold apply_batch. cbn [fold_left apply_bop]. rewrite Ev, remove_A, (jrem_none lv k Hf). reflexivity.
       + (* put *)
@@ -300,13 +314,13 @@ Section Sim.
           { apply (res_inv_cons res lv); [exact Hres| |].
             - rewrite Hfx. exists (jf x, k, (v, t)). split; [apply jfind_cons_same|reflexivity].
             - intros k' Hne. unfold lv2. rewrite jfind_cons_other by exact Hne. apply jfind_jrem_other; exact Hne. }
-          destruct (IH m1 n ((k, jf x) :: res) lv2 HR1 HJ0 HJ2 Hres2 Hw2 Hu2 Hk2)
-            as [m' [n' [eo [lv' [E [H1 [H2 [H3 [H4 [H5 H6]]]]]]]]]].
+          destruct (IH m1 n ((k, jf x) :: res) lv2 HR1 HJ0 HJ2 Hres2 Hw2 Hu2 Hk2 Hg2)
+            as [m' [n' [eo [lv' [E [H1 [H2 [H3 [H4 [[H5 H5g] H6]]]]]]]]]].
           rewrite E. exists m', n', ((jf x, fv F v, rfmt_tags F k t) :: eo), lv'. cbn [option_map]. split; [reflexivity|]. split; [exact H1|]. split; [exact H2|].
           split; [|split; [|split]].
           -- rewrite H3. unfold apply_batch. cbn [fold_left apply_bop]. rewrite Ev. unfold put. rewrite remove_A. reflexivity.
           -- rewrite H4. unfold apply_batch. cbn [fold_left apply_bop]. rewrite Hfv. unfold put. rewrite (remove_U_found F lv n k x HJ Hf). reflexivity.
-          -- cbn [forallb]. rewrite H5. unfold wf_bop. cbn [snd]. rewrite (rfmt_not_bad k t Hbt). reflexivity.
+          -- cbn [forallb]. rewrite H5, H5g, (Hgput (jf x) k v t Hg1). unfold wf_bop. cbn [snd]. rewrite (rfmt_not_bad k t Hbt). auto.
           -- unfold has_empty_key in *. cbn [map existsb bop_key fst]. rewrite (N.eqb_sym 0 (jf x)), Hfx. exact H6.
         * cbn [N.eqb].
           set (lv2 := (fresh n, k, (v, t)) :: lv).
@@ -316,21 +330,21 @@ Section Sim.
           { apply (res_inv_cons res lv); [exact Hres| |].
             - rewrite Hfr. exists (fresh n, k, (v, t)). split; [apply jfind_cons_same|reflexivity].
             - intros k' Hne. unfold lv2. apply jfind_cons_other; exact Hne. }
-          destruct (IH m1 (n + 1) ((k, fresh n) :: res) lv2 HR1 HJ0 HJ2 Hres2 Hw2 Hu2 Hk2)
-            as [m' [n' [eo [lv' [E [H1 [H2 [H3 [H4 [H5 H6]]]]]]]]]].
+          destruct (IH m1 (n + 1) ((k, fresh n) :: res) lv2 HR1 HJ0 HJ2 Hres2 Hw2 Hu2 Hk2 Hg2)
+            as [m' [n' [eo [lv' [E [H1 [H2 [H3 [H4 [[H5 H5g] H6]]]]]]]]]].
           rewrite E. exists m', n', ((fresh n, fv F v, rfmt_tags F k t) :: eo), lv'. cbn [option_map]. split; [reflexivity|]. split; [exact H1|]. split; [exact H2|].
           split; [|split; [|split]].
           -- rewrite H3. unfold apply_batch. cbn [fold_left apply_bop]. rewrite Ev. unfold put. rewrite remove_A, (jrem_none lv k Hf). reflexivity.
           -- rewrite H4. unfold apply_batch. cbn [fold_left apply_bop]. rewrite Hfv. unfold put. rewrite (remove_U_fresh F lv n HJ). reflexivity.
-          -- cbn [forallb]. rewrite H5. unfold wf_bop. cbn [snd]. rewrite (rfmt_not_bad k t Hbt). reflexivity.
+          -- cbn [forallb]. rewrite H5, H5g, (Hgput (fresh n) k v t Hg1). unfold wf_bop. cbn [snd]. rewrite (rfmt_not_bad k t Hbt). auto.
           -- unfold has_empty_key in *. cbn [map existsb bop_key fst]. rewrite (N.eqb_sym 0 (fresh n)), Hfr. exact H6.
   Qed.
   Lemma wfk_wf1 o : wfk_op o = true -> wf1_op o = true.
   Proof. unfold wfk_op. intros H. apply andb_prop in H as [H _]. exact H. Qed.
 
-  Lemma formatted_rand_sim : sim wfk_op pers (formatted_rand true F P) rand_rel.
+  Lemma formatted_rand_sim_g : sim G pers (formatted_rand true F P) rand_rel.
   Proof.
-    intros [m n] a o Ho [l [HR [-> HJ]]]. cbn [fst snd] in HR, HJ.
+    intros [m n] a o HoG [l [HR [-> HJ]]]. cbn [fst snd] in HR, HJ. pose proof (HGk o HoG) as Ho.
     unfold rand_rel. destruct o as [k v t|k|k|ks|q|k|b| |]; cbn [step formatted_rand frand_step spec_step].
     - (* Put *)
       destruct (valid_put k v t) eqn:Ev; [|cbn [fst snd]; split; [exists l; auto|reflexivity]].
@@ -339,14 +353,14 @@ Section Sim.
       destruct (rfind_ok m l n k HR HJ) as [H1 H2]. destruct (rfind F P m k) as [m1 x]. cbn [fst snd] in H1, H2. subst x.
       destruct (jfind l k) as [y|] eqn:Hf.
       + assert (Hy0 : jf y <> 0) by (apply (J_f0 l n HJ y); apply (jfind_some l k y Hf)).
-        pose proof (HP m1 (U F l) (Put (jf y) (fv F v) (rfmt_tags F k t)) eq_refl H1) as [H3 H4].
+        pose proof (HP m1 (U F l) (Put (jf y) (fv F v) (rfmt_tags F k t)) (HGput (jf y) k v t HoG) H1) as [H3 H4].
         destruct (step P m1 (Put (jf y) (fv F v) (rfmt_tags F k t))) as [m2 r]. cbn [fst snd spec_step] in H3, H4.
         rewrite (valid_put_rfmt (jf y) k v t Hy0 Ev) in H3, H4. cbn [fst snd] in *. subst r. cbn [is_done]. split; [|reflexivity].
         exists ((jf y, k, (v, t)) :: jrem l k). split; [|split].
         * unfold put in H3. rewrite (remove_U_found F l n k y HJ Hf) in H3. exact H3.
         * unfold put. rewrite remove_A. reflexivity.
         * apply J_put_found; assumption.
-      + pose proof (HP m1 (U F l) (Put (fresh n) (fv F v) (rfmt_tags F k t)) eq_refl H1) as [H3 H4].
+      + pose proof (HP m1 (U F l) (Put (fresh n) (fv F v) (rfmt_tags F k t)) (HGput (fresh n) k v t HoG) H1) as [H3 H4].
         destruct (step P m1 (Put (fresh n) (fv F v) (rfmt_tags F k t))) as [m2 r]. cbn [fst snd spec_step] in H3, H4.
         rewrite (valid_put_rfmt (fresh n) k v t (fresh_nz n) Ev) in H3, H4. cbn [fst snd] in *. subst r. cbn [is_done]. split; [|reflexivity].
         exists ((fresh n, k, (v, t)) :: l). split; [|split].
@@ -375,7 +389,7 @@ Section Sim.
       + cbn [is_nil].
         assert (Hc : (fst c =? KEYN) = false).
         { unfold wfk_op in Ho. apply andb_prop in Ho as [_ Ho]. apply negb_true_iff in Ho. exact Ho. }
-        pose proof (HP m (U F l) (Query [fcrit F c]) eq_refl HR) as [H1 H2].
+        pose proof (HP m (U F l) (Query [fcrit F c]) (HGq c HoG) HR) as [H1 H2].
         destruct (step P m (Query [fcrit F c])) as [m1 r]. cbn [fst snd spec_step is_nil] in *. subst r.
         split; [exists l; auto|]. rewrite (qeval_user F OK l c Hc), qeval_A, runfmt_U; [reflexivity|exact OK|].
         intros x Hx. apply (J_t l n HJ x). apply filter_In in Hx as [Hx _]. exact Hx.
@@ -385,7 +399,7 @@ Section Sim.
       destruct (rfind_ok m l n k HR HJ) as [H1 H2]. destruct (rfind F P m k) as [m1 x]. cbn [fst snd] in *. subst x.
       destruct (jfind l k) as [y|] eqn:Hf.
       + assert (Hy0 : (jf y =? 0) = false) by (apply N.eqb_neq; apply (J_f0 l n HJ y); apply (jfind_some l k y Hf)).
-        pose proof (HP m1 (U F l) (Delete (jf y)) eq_refl H1) as [H3 H4].
+        pose proof (HP m1 (U F l) (Delete (jf y)) (HGs (Delete (jf y))) H1) as [H3 H4].
         destruct (step P m1 (Delete (jf y))) as [m2 r]. cbn [fst snd spec_step] in H3, H4. rewrite Hy0 in H3, H4. cbn [fst snd] in *. subst r.
         cbn [is_done]. split; [|reflexivity]. exists (jrem l k). split; [|split].
         * rewrite (remove_U_found F l n k y HJ Hf) in H3. exact H3.
@@ -399,11 +413,11 @@ Section Sim.
         { unfold wfk_op, wf1_op in Ho. cbn in Ho. rewrite andb_true_r in Ho. apply andb_prop in Ho. exact Ho. }
         destruct Hw as [Hw Hu].
         assert (Hres0 : res_inv [] l l) by (intros k0; reflexivity).
-        destruct (rbatch_ok l n b m n [] l HR HJ HJ Hres0 Hw Hu Ek) as [m' [n' [eo [lv' [E [H1 [H2 [H3 [H4 [H5 H6]]]]]]]]]].
+        destruct (rbatch_ok l n b m n [] l HR HJ HJ Hres0 Hw Hu Ek (HGbu b HoG)) as [m' [n' [eo [lv' [E [H1 [H2 [H3 [H4 [[H5 H5g] H6]]]]]]]]]].
         rewrite E. rewrite orb_false_r. destruct b as [|b0 br].
         * (* empty batch: the underlying store refuses it *)
           cbn in E. inversion E; subst. cbn [is_nil negb andb].
-          pose proof (HP m' (U F l) (Batch []) eq_refl H1) as [H7 H8].
+          pose proof (HP m' (U F l) (Batch []) (HGs (Batch [])) H1) as [H7 H8].
           destruct (step P m' (Batch [])) as [m2 r]. cbn [fst snd spec_step is_nil orb] in *. subst r. cbn. split; [exists l; auto|reflexivity].
         * cbn [is_nil negb andb]. destruct eo as [|e0 er].
           -- cbn [is_nil fst snd]. split; [|reflexivity]. exists lv'. split; [|split].
@@ -411,7 +425,7 @@ Section Sim.
              ++ symmetry. exact H3.
              ++ exact H2.
           -- cbn [is_nil].
-             assert (Hg : wf1_op (Batch (e0 :: er)) = true) by (unfold wf1_op; cbn [wf_op]; rewrite H5; reflexivity).
+             pose proof (HGb (e0 :: er) H5g) as Hg.
              pose proof (HP m' (U F l) (Batch (e0 :: er)) Hg H1) as [H7 H8].
              destruct (step P m' (Batch (e0 :: er))) as [m2 r]. cbn [fst snd spec_step is_nil orb] in H7, H8.
              match type of H8 with context [if ?c then _ else _] => replace c with false in H7, H8 by (symmetry; exact H6) end.
@@ -420,10 +434,10 @@ Section Sim.
              ++ symmetry. exact H3.
              ++ exact H2.
     - (* Flush *)
-      pose proof (HP m (U F l) Flush eq_refl HR) as [H1 H2].
+      pose proof (HP m (U F l) Flush (HGs Flush) HR) as [H1 H2].
       destruct (step P m Flush) as [m1 r]. cbn [fst snd spec_step] in *. subst r. cbn. split; [exists l; auto|reflexivity].
     - (* Reopen *)
-      pose proof (HP m (U F l) Reopen eq_refl HR) as [H1 H2].
+      pose proof (HP m (U F l) Reopen (HGs Reopen) HR) as [H1 H2].
       destruct (step P m Reopen) as [m1 r]. cbn [fst snd spec_step] in *. subst r. cbn [is_done fst snd]. split; [|reflexivity].
       destruct pers.
       + exists l. auto.
@@ -433,3 +447,13 @@ Section Sim.
   Lemma rand_rel_init : R (init P) [] -> rand_rel (init (formatted_rand true F P)) [].
   Proof. intros H. exists []. cbn. split; [exact H|]. split; [reflexivity|]. apply J_nil. Qed.
 End Sim.
+
+(* the instance used so far: the store below follows the contract for single-criterion queries and well-formed batches *)
+Lemma formatted_rand_sim (F : formatter) (OK : fmt_ok F) pers (P : prov) R :
+  sim wf1_op pers P R -> sim wfk_op pers (formatted_rand true F P) (rand_rel F P R).
+Proof. intros HP. apply (formatted_rand_sim_g F OK pers P R wfk_op wf1_op wf_bop wf_bop); auto.
+  - intros o. destruct o as [| | | | | |[|x r]| |]; auto.
+  - intros eo H. unfold wf1_op. cbn. rewrite H. reflexivity.
+  - intros b H. unfold wfk_op, wf1_op in H. cbn in H. rewrite andb_true_r in H. apply andb_prop in H as [H _]. exact H.
+  - intros f k v t H. unfold wf_bop in *. cbn [snd] in *. rewrite (rfmt_not_bad F OK k t); [reflexivity|]. destruct (existsb bad_tag t); [discriminate|reflexivity].
+Qed.
